@@ -5,3 +5,4 @@ pub mod edit;
 pub mod c06;
 pub mod c07;
 pub mod c09;
+pub mod c10;
